@@ -125,12 +125,14 @@ CHECKS["C04"] = dict(
     engine="pegir+pyvc", category="proof",
     text="Every action of every rule reachable from the entry points is type-checked against the ASDL of the running CPython by an abstract interpreter "
          "over the extracted IR (rule result types as least fixpoint): keywords are fields, required fields and position attributes supplied, lists where "
-         "`*`, None only where `?`, node categories, Store/Del/Load contexts; alternatives using LOCATIONS consume a token first. compile() on every "
+         "`*`, None only where `?`, node categories, Store/Del/Load contexts; alternatives using LOCATIONS consume a token first. The builders' bodies are "
+         "verified (E1): every node they build carries the construct's positions, declared result shapes, make_arguments yields one default slot per "
+         "keyword-only parameter and never more positional defaults than parameters (for lists of any length). compile() on every "
          "tree of a Python+xonsh pool (constructs x contexts) is the bounded stand-in that also validates our reading of PyAST_Validate.",
     design_ref="DESIGN.md 5/C04, 3.3",
     note="assumed: transcription of compile()'s structural rules; declared result types of subheader builders; fields whose value has unknown abstract "
          "type are counted unchecked; the semantic-rejection clause only via stand-in.",
-    technique="typing contracts type(R) on the generated parser's IR (abstract interpretation, own checker)",
+    technique="typing contracts type(R) on the generated parser's IR (abstract interpretation, own checker) + E1 postconditions on the builders (z3)",
 )
 CHECKS["C11"] = dict(
     engine="pyvc+pegir", category="proof",
